@@ -24,9 +24,9 @@ theorem sub_iff {a b : List Obj} : sub a b = true ↔ a ⊆ b := by
   · intro h o ho; exact h o ho
   · intro h o ho; exact h ho
 
-theorem overlaps_iff {a b : List Obj} : overlaps a b = true ↔ ∃ o, o ∈ a ∧ o ∈ b := by
+theorem overlaps_iff {a b : List Obj} : overlaps a b = true ↔ ∃ o, o ∈ a ∧ ∃ o', o' ∈ b ∧ norm o = norm o' := by
   unfold overlaps
-  simp only [List.any_eq_true, List.contains_iff_mem]
+  simp only [List.any_eq_true, beq_iff_eq]
 
 def CellLe (c d : Cell) : Prop := c.top ⊆ d.top ∧ c.kids ⊆ d.kids ∧ c.deep ⊆ d.deep
 
@@ -142,8 +142,8 @@ theorem append_mono {a a' b b' : List Obj} (ha : a ⊆ a') (hb : b ⊆ b') : a +
 
 theorem overlaps_mono {a a' b b' : List Obj} (ha : a ⊆ a') (hb : b ⊆ b') : overlaps a b = true → overlaps a' b' = true := by
   intro h
-  rcases overlaps_iff.1 h with ⟨o, ho, hob⟩
-  exact overlaps_iff.2 ⟨o, ha ho, hb hob⟩
+  rcases overlaps_iff.1 h with ⟨o, ho, o', ho', hn⟩
+  exact overlaps_iff.2 ⟨o, ha ho, o', hb ho', hn⟩
 
 theorem linkCell_mono {c c' : Cell} {t t' a a' b b' : List Obj} (hc : CellLe c c') (ht : t ⊆ t') (ha : a ⊆ a') (hb : b ⊆ b') :
     CellLe (linkCell t a b c) (linkCell t' a' b' c') := by
@@ -157,6 +157,21 @@ theorem link_mono {Q Q' : Pts} {t t' a a' b b' : List Obj} (hQ : Le Q Q') (ht : 
   intro z
   rw [get_link, get_link]
   exact linkCell_mono (hQ z) ht ha hb
+
+theorem list_map_mono {a b : List Obj} (f : Obj → Obj) (h : a ⊆ b) : a.map f ⊆ b.map f := by
+  intro y hy
+  rcases List.mem_map.1 hy with ⟨x, hx, hf⟩
+  exact List.mem_map.2 ⟨x, h hx, hf⟩
+
+theorem cellMap_mono {c d : Cell} (k : Nat) (f : Obj → Obj) (h : CellLe c d) : CellLe (c.mapFrom k f) (d.mapFrom k f) := by
+  unfold Cell.mapFrom
+  refine ⟨?_, ?_, list_map_mono f h.2.2⟩
+  · by_cases hk : k = 0 <;> simp only [hk, if_true, if_false]
+    · exact list_map_mono f h.1
+    · exact h.1
+  · by_cases hk : k ≤ 1 <;> simp only [hk, if_true, if_false]
+    · exact list_map_mono f h.2.1
+    · exact h.2.1
 
 theorem flatMap_mono {α : Type} {l : List α} {f g : α → List Obj} (h : ∀ a, f a ⊆ g a) :
     l.flatMap f ⊆ l.flatMap g := by
@@ -176,6 +191,8 @@ theorem sel_mono {P A : Pts} (h : Le P A) (args : List (Option Var)) (ret : Var)
   cases s with
   | top j => exact (argCell_mono h args j).1
   | below j => exact append_mono (argCell_mono h args j).2.1 (argCell_mono h args j).2.2
+  | recs j => exact list_map_mono _ (append_mono (argCell_mono h args j).2.1 (argCell_mono h args j).2.2)
+  | recTop j => exact list_map_mono _ (argCell_mono h args j).1
   | fresh => exact fun _ ho => ho
   | glob g => exact fun _ ho => ho
 
@@ -210,6 +227,8 @@ theorem step_mono (S : List Summary) (s : Stmt) {P A : Pts} (h : Le P A) : Le (s
   | global x g => exact add_mono x h (CellLe.refl _)
   | alias x ys => exact alias_fold_mono h x ys h
   | elem x y => exact add_mono x h ⟨(h y).2.1, (h y).2.2, (h y).2.2⟩
+  | asRec x y d => exact add_mono x h (cellMap_mono d _ (h y))
+  | leaf x y => exact add_mono x h ⟨(h y).1, fun _ ho => ho, fun _ ho => ho⟩
   | fresh x => exact add_mono x h (CellLe.refl _)
   | shallow x ys =>
     exact add_mono x h ⟨fun _ ho => ho, flatMap_mono (fun y => (h y).2.1), flatMap_mono (fun y => (h y).2.2)⟩
@@ -242,6 +261,8 @@ theorem targets_mono (S : List Summary) (s : Stmt) {P A : Pts} (h : Le P A) : ta
   | global x g => exact fun _ ho => ho
   | alias x ys => exact fun _ ho => ho
   | elem x y => exact fun _ ho => ho
+  | asRec x y d => exact fun _ ho => ho
+  | leaf x y => exact fun _ ho => ho
   | fresh x => exact fun _ ho => ho
   | shallow x ys => exact fun _ ho => ho
   | pack x ys => exact fun _ ho => ho
@@ -307,6 +328,8 @@ theorem step_extensive (S : List Summary) (s : Stmt) (P : Pts) : Le P (step S s 
   | global x g => exact le_add P x _
   | alias x ys => exact le_alias_fold P x ys P
   | elem x y => exact le_add P x _
+  | asRec x y d => exact le_add P x _
+  | leaf x y => exact le_add P x _
   | fresh x => exact le_add P x _
   | shallow x ys => exact le_add P x _
   | pack x ys => exact le_add P x _
@@ -410,6 +433,8 @@ theorem closedStmt_sound (S : List Summary) (s : Stmt) (A : Pts) (h : closedStmt
     simp only [closedStmt, List.all_eq_true] at h
     exact alias_fold_le x ys (fun y hy => cellSub_sound (h y hy)) (Le.refl A)
   | elem x y => exact add_le x (Le.refl A) (cellSub_sound h)
+  | asRec x y d => exact add_le x (Le.refl A) (cellSub_sound h)
+  | leaf x y => exact add_le x (Le.refl A) (cellSub_sound h)
   | fresh x => exact add_le x (Le.refl A) (cellSub_sound h)
   | shallow x ys => exact add_le x (Le.refl A) (cellSub_sound h)
   | pack x ys => exact add_le x (Le.refl A) (cellSub_sound h)
